@@ -16,7 +16,7 @@ from vlib import core, e2e
 
 # the generated per-row capture files (tools/mk_regexcap3.py): RegexCapture3 (index), RegexCapture3a… (parts), RegexCapture3Spec
 _RC3 = sorted(os.path.splitext(os.path.basename(p))[0] for p in glob.glob(os.path.join(os.path.dirname(os.path.abspath(__file__)), '..', '..', 'lean', 'S4V', 'Props', 'RegexCapture3*.lean')))
-MODS_BASE = ['S4V.Props.TimeSpec', 'S4V.Props.RegexSpec', 'S4V.Props.RegexCapture', 'S4V.Props.RegexCapture2', 'S4V.Props.RegexCapture2Auto', 'S4V.Props.PatSelSpec']
+MODS_BASE = ['S4V.Props.TimeSpec', 'S4V.Props.RegexSpec', 'S4V.Props.RegexCapture', 'S4V.Props.RegexCapture2', 'S4V.Props.RegexCapture2Auto', 'S4V.Props.PatSelSpec', 'S4V.Props.CapturesSpec', 'S4V.Props.CapturesMutants']
 MODS = MODS_BASE + ['S4V.Props.' + m for m in _RC3]
 LEVEL_NOTE = ("Proved (S4V.Props.TimeSpec over the hand model of captures_to_buffer_bytes + datetime_parse_from_str and the tables regenerated from "
               "datetime.rs): every DTPD! row has range start 0; every DTFSS set's strftime pattern is the item sequence its enum fields stand for; every "
@@ -252,7 +252,7 @@ def oracle_all(ctx):
 
 
 def check(ctx):
-    return core.standard_check(ctx, ['TimeTables', 'Regex', 'PatSel'], MODS, [('time', 3000, 60000), ('rgx', 12000, 150000), ('rgxr', 60000, 680000), ('patsel', 500, 6000)], oracle_all, LEVEL_NOTE, ASSUME)
+    return core.standard_check(ctx, ['TimeTables', 'Regex', 'PatSel', 'Captures'], MODS, [('time', 3000, 60000), ('capx', 2000, 20000), ('rgx', 12000, 150000), ('rgxr', 60000, 680000), ('patsel', 500, 6000)], oracle_all, LEVEL_NOTE, ASSUME)
 
 
 def replay(ctx, data):
